@@ -85,9 +85,9 @@ struct State {
   uint64_t ep_count[EP__N] = {0};
   uint64_t op_index = 0;
   // evidence counters
-  uint64_t n_alloc = 0, n_alloc_null = 0, n_free = 0, n_realloc = 0, n_realloc_inplace = 0, n_realloc_moved = 0, n_realloc_null = 0;
+  uint64_t n_alloc = 0, n_alloc_null = 0, n_free = 0, n_realloc = 0, n_realloc_inplace = 0, n_realloc_moved = 0, n_realloc_null = 0, n_realloc_mustfail = 0;
   uint64_t n_expand_ok = 0, n_expand_null = 0, n_zero_checked = 0, n_zero_bytes = 0, n_zero_reused_dirty = 0, n_zgrow_inplace = 0, n_zgrow_moved = 0;
-  uint64_t n_aligned = 0, n_interior = 0, n_walks = 0, n_walk_blocks = 0, n_conserv = 0, n_queries = 0, n_heap_new = 0, n_heap_delete = 0, n_heap_destroy = 0;
+  uint64_t n_aligned = 0, n_interior = 0, n_walks = 0, n_walk_patterns = 0, n_walk_blocks = 0, n_conserv = 0, n_queries = 0, n_heap_new = 0, n_heap_delete = 0, n_heap_destroy = 0;
   uint64_t n_drain = 0, n_remote_batches = 0, n_thread_exits = 0, n_foreign = 0, n_purge_ranges = 0, n_clock_ms = 0;
   uint64_t max_live_blocks = 0, max_live_bytes = 0;
   std::set<size_t> bins_hit;      // distinct mi_good_size(n) for n <= 64 KiB
